@@ -91,6 +91,9 @@ type tamperer struct {
 	others  []*protocol.Message // messages of other parties (donors for copied values)
 	applied []string
 	budget  int
+	// forceHow > 0: the byte-string malformation is fixed (case number of the switch in mutate) and no content is
+	// substituted wholesale - used where the scenario needs a well-formed but WRONG value
+	forceHow int
 }
 
 func pathStr(p path) string {
@@ -106,7 +109,7 @@ func (t *tamperer) mutate(m *protocol.Message, to party.ID) *protocol.Message {
 	c := t.c
 	cp := *m
 	kind := c.Intn(10)
-	if kind == 0 && len(t.seen) > 0 { // a message meant for another recipient or round
+	if kind == 0 && len(t.seen) > 0 && t.forceHow == 0 { // a message meant for another recipient or round
 		d := t.seen[c.Intn(len(t.seen))]
 		if !bytes.Equal(d.Data, m.Data) {
 			cp.Data = append([]byte{}, d.Data...)
@@ -130,7 +133,11 @@ func (t *tamperer) mutate(m *protocol.Message, to party.ID) *protocol.Message {
 	switch o := old.(type) {
 	case []byte:
 		b := append([]byte{}, o...)
-		switch c.Intn(7) {
+		how7 := c.Intn(7)
+		if t.forceHow > 0 {
+			how7 = t.forceHow
+		}
+		switch how7 {
 		case 0:
 			for i := range b {
 				b[i] = 0
@@ -461,8 +468,16 @@ func tamperPresignOnline(c *Ctx) {
 		}
 		pres[id] = q
 	}
+	// one online signing per kind of deviation: any malformation (0), then two well-formed but wrong sigma shares
+	// (last byte +1, one bit flipped): those reach the share verification that uses the RELOADED presignature
+	for _, how := range []int{0, 4, 2} {
+		tamperOnlineRun(c, m0, signers, pres, sid, n, t, how)
+	}
+}
+
+func tamperOnlineRun(c *Ctx, m0 *material, signers []party.ID, pres map[party.ID]*ecdsa.PreSignature, sid []byte, n, t, how int) {
 	cheater := signers[c.Intn(len(signers))]
-	tm := &tamperer{c: c, cheater: cheater, budget: 1}
+	tm := &tamperer{c: c, cheater: cheater, budget: 1, forceHow: how}
 	msg := msgOfLen(c)
 	hs2 := map[party.ID]protocol.Handler{}
 	for _, id := range signers {
@@ -511,6 +526,10 @@ func tamperPresignOnline(c *Ctx) {
 
 func init() {
 	register("sess-tamper", func(c *Ctx) {
+		// all protocol randomness comes from crypto/rand.Reader: a seeded stream makes the sessions (and with them every
+		// later seeded choice of the generator) reproducible
+		seedCryptoRand(c.Seed*7919 + 1140)
+		defer restoreCryptoRand()
 		installPrimeHook(c.Intn(40))
 		fast := []string{"frost", "frost-taproot", "doerner"}
 		for i := 0; i < c.N; i++ {
@@ -636,6 +655,10 @@ func presignAbort(c *Ctx, variant, deviation string, cheaterIdx int) {
 
 func init() {
 	register("sess-presign-abort", func(c *Ctx) {
+		// all protocol randomness comes from crypto/rand.Reader: a seeded stream makes the sessions (and with them every
+		// later seeded choice of the generator) reproducible
+		seedCryptoRand(c.Seed*7919 + 1832)
+		defer restoreCryptoRand()
 		installPrimeHook(c.Intn(40))
 		type combo struct{ v, d string }
 		all := []combo{{"offline", "delta-share"}, {"full", "chi-x"}, {"full", "gamma"}, {"online", "sigma"}, {"offline", "chi-x"}, {"offline", "gamma"},
